@@ -8,6 +8,7 @@ import (
 	"encoding"
 	stdflag "flag"
 	"fmt"
+	"io"
 	"reflect"
 	"strings"
 	"time"
@@ -27,6 +28,12 @@ import (
 
 type stdFlag = stdflag.Flag
 type pflagFlag = pflag.Flag
+
+func spf13NewFlagSet() *pflag.FlagSet {
+	fs := pflag.NewFlagSet("app", pflag.ContinueOnError)
+	fs.SetOutput(io.Discard)
+	return fs
+}
 
 // every kind parse.String can be asked for (supported or not: unsupported kinds must be errors)
 var c16ParseTypes = func() []reflect.Type {
